@@ -68,12 +68,13 @@ def map_trace(ref_trace, qid):
 
 def run_differential(prog, script, fail: Callable[[str, Optional[str]], None], count: Callable[[str, int], None],
                      pipe_kw=None, compare_trace=True, on_segment=None, on_top=None, step_bound=4000,
-                     check_host_handles=True, templates=None, segment_modes=None, after_close=None):
+                     check_host_handles=True, templates=None, segment_modes=None, after_close=None, on_nested=None):
     """Returns dict with 'nontrivial' info. `fail(what, key)` reports a violation."""
     ref, snaps = reference_run(prog, script, step_bound, templates)
     pipe = Pipe(script=script, max_qubits=5, **(pipe_kw or {}))
     drv = SdkDriver(pipe.conn)
     drv.on_top = on_top
+    drv.on_nested = on_nested
     per_segment = isinstance(templates, list)
     drv.tmpl_values = dict(templates or {}) if not per_segment else {}
     ex = pipe.ex
